@@ -953,7 +953,7 @@ def build_tasks(ctx):
             for cap in (1, 2, 3, 4):
                 small = len(g["nodes"]) <= 3 and cap <= 2 and sum(g["savers"].values()) <= 1
                 for p in ((1, 2) if not big else (1, 2, 3)):
-                    ex = (60000 if big else 6000) if (small and p <= 2 and (big or (p == 1 and (lazy or cap == 1)))) \
+                    ex = (25000 if big else 6000) if (small and p <= 2 and (big or (p == 1 and (lazy or cap == 1)))) \
                         else None
                     if big or esc or (p == 1 and cap <= 2) or (p == 2 and cap == 3):
                         add("adversarial", g, lazy, cap, p, explore=ex)
